@@ -49,7 +49,14 @@ def run(ctx):
 def rule_strict_search(ctx, rid):
     P = ctx.P
     fi = P.func(FE)
-    exits = [e for e in Evaluator(P).run(fi, context={'peak_prom_thresh': None, 'parabolic_extrema': False})
+    # the default path: callers in the sift cone never pass a prominence threshold, so its signature default applies
+    import ast as _ast
+    dflt = fi.defaults.get('peak_prom_thresh')
+    try:
+        dval = _ast.literal_eval(dflt) if dflt is not None else None
+    except Exception:
+        dval = '<expr>'
+    exits = [e for e in Evaluator(P).run(fi, context={'peak_prom_thresh': dval, 'parabolic_extrema': False})
              if e.kind == 'return']
     ctx.paths += len(exits)
     c1 = 'extrema search is argrelextrema(X, numpy.greater, order=1)'
